@@ -170,7 +170,7 @@ func stripOPT(rrs []dns.RR) []dns.RR {
 
 func drawC12(rt *rapid.T, tier string) SrvScenario {
 	o := srvDrawOpts{backends: []string{"cdb", "cdb", "cdb", "cdb", "cdb", "rdb1", "rdb2"}, maxClients: 4, maxQueries: 6, maxOps: 4,
-		faults: []string{"missing", "nokey", "inject", "lowio"}, cache: true, jumps: true, ecs: true, badvers: true}
+		faults: []string{"missing", "nokey", "inject", "lowio"}, cache: true, jumps: true, ecs: true, badvers: true, cleanupDirect: true}
 	if tier == "thorough" {
 		o.backends = []string{"cdb", "cdb", "rdb1", "rdb2"}
 		o.maxQueries = 8
